@@ -3,6 +3,7 @@
 package c17
 
 import (
+	"bufio"
 	"bytes"
 	"encoding/json"
 	"fmt"
@@ -413,6 +414,46 @@ func run(c *core.Ctx) {
 			}
 		}
 	}
+	// a line at the scanner's token limit (64 KiB): whether it parses or fails, it does so for every kind of reader
+	// holding the same bytes - readers that also offer Len / Seek / WriteTo / ReadByte, and ones that offer Read only
+	sizes := []int{65535, 65536, 65537, 70000}
+	if c.Tier == core.Thorough {
+		sizes = append(sizes, 131071, 131073, 1<<20+1)
+	}
+	for _, f := range []string{"srt", "vtt", "ssa"} {
+		for _, n := range sizes {
+			for shape := 0; shape < 2; shape++ {
+				if !c.Mine() {
+					continue
+				}
+				long := strings.Repeat("x", n)
+				var data []byte
+				switch {
+				case shape == 0:
+					data = []byte(long) // the whole document is the line
+				case f == "srt":
+					data = []byte("1\n00:00:01,000 --> 00:00:02,000\n" + long[:n-1] + "\n\n2\n00:00:03,000 --> 00:00:04,000\ny\n")
+				case f == "vtt":
+					data = []byte("WEBVTT\n\n00:00:01.000 --> 00:00:02.000\n" + long[:n-1] + "\n\n00:00:03.000 --> 00:00:04.000\ny\n")
+				default:
+					data = []byte("[Events]\nFormat: Start, End, Text\nDialogue: 0:00:01.00,0:00:02.00," + long[:n-35] + "\nDialogue: 0:00:03.00,0:00:04.00,y\n")
+				}
+				name := fmt.Sprintf("%s-line-of-%d-shape-%d", f, n, shape)
+				want := outcome(f, bytes.NewReader(data))
+				kinds := readerKinds(data)
+				for _, k := range kinds {
+					got := outcome(f, k.rd)
+					c.Traces++
+					c.Transitions++
+					cs := Case{Doc: name, Format: f, Data: data, Policy: "reader-kind:" + k.name, K: n}
+					c.Record("longline."+f, core.Hash64(got), core.Hash64(name, k.name), func() interface{} { return map[string]interface{}{"doc": name, "reader": k.name} })
+					if got != want {
+						c.Violate("longline", "sched."+f+".depends-on-reader-kind", fmt.Sprintf("document %s (%d bytes): read from a bytes.Reader and from a %s holding the same bytes the results differ\n--- bytes.Reader:\n%s\n--- %s:\n%s", name, len(data), k.name, trunc(want), k.name, trunc(got)), cs, 400000+n)
+					}
+				}
+			}
+		}
+	}
 	for k := range pts {
 		c.State(core.Hash64(k))
 	}
@@ -455,6 +496,24 @@ func trunc(s string) string {
 	return s
 }
 
+type readerKind struct {
+	name string
+	rd   io.Reader
+}
+
+// readerKinds: the same bytes behind readers of different method sets and delivery habits.
+func readerKinds(data []byte) []readerKind {
+	return []readerKind{
+		{"read-only", struct{ io.Reader }{bytes.NewReader(data)}},
+		{"strings.Reader", strings.NewReader(string(data))},
+		{"bytes.Buffer", bytes.NewBuffer(append([]byte{}, data...))},
+		{"bufio.Reader", bufio.NewReaderSize(struct{ io.Reader }{bytes.NewReader(data)}, 16)},
+		{"multi-reader", io.MultiReader(bytes.NewReader(data[:len(data)/2]), bytes.NewReader(data[len(data)/2:]))},
+		{"chunks-of-1024", &policyReader{data: data, mode: "chunk", k: 1024}},
+		{"data-with-eof", &policyReader{data: data, mode: "data-with-eof"}},
+	}
+}
+
 func replay(sub string, raw json.RawMessage) (string, bool) {
 	var cs Case
 	if err := json.Unmarshal(raw, &cs); err != nil {
@@ -469,6 +528,12 @@ func replay(sub string, raw json.RawMessage) (string, bool) {
 	case cs.Policy == "split-at":
 		want = outcome(cs.Format, &lineReader{data: cs.Data})
 		got = outcome(cs.Format, io.MultiReader(bytes.NewReader(cs.Data[:cs.K]), bytes.NewReader(cs.Data[cs.K:])))
+	case strings.HasPrefix(cs.Policy, "reader-kind:"):
+		for _, k := range readerKinds(cs.Data) {
+			if "reader-kind:"+k.name == cs.Policy {
+				got = outcome(cs.Format, k.rd)
+			}
+		}
 	case cs.Policy != "":
 		got = outcome(cs.Format, &policyReader{data: cs.Data, mode: cs.Policy, k: cs.K})
 	default:
